@@ -312,3 +312,122 @@ func strConst(info *types.Info, e ast.Expr) (string, bool) {
 	}
 	return constant.StringVal(tv.Value), true
 }
+
+// ---- feasible paths --------------------------------------------------------
+//
+// Dominance is too strict for "B happens before C on every path" when the code tests the same condition
+// twice:   w := t.running; if w { drain() }; unlock(); if !w { return }; stop()
+// drain() does not dominate stop(), yet every path that reaches stop() took the w-edge both times.
+// feasiblePathAvoiding enumerates paths that are consistent in the branch conditions they take: a path
+// may not leave two If instructions on edges that contradict each other about the same SSA value (or
+// about a value and its negation).  A condition's recorded outcome is forgotten when the path re-enters
+// the block that computes it (a new loop iteration computes a new value).  The search is bounded; when
+// the bound is hit the answer is "a path exists" (the conservative answer for a must-precede rule).
+
+func condKey(v ssa.Value) (ssa.Value, bool) {
+	pos := true
+	for {
+		u, ok := v.(*ssa.UnOp)
+		if ok && u.Op.String() == "!" {
+			v, pos = u.X, !pos
+			continue
+		}
+		return v, pos
+	}
+}
+
+// feasiblePathAvoiding: is there a branch-consistent path from `from` (nil: the function entry) to
+// target (nil: any return) that passes none of the instructions in stop?
+func feasiblePathAvoiding(fn *ssa.Function, from, target ssa.Instruction, stop map[ssa.Instruction]bool) bool {
+	if len(fn.Blocks) == 0 {
+		return false
+	}
+	type frame struct {
+		b     *ssa.BasicBlock
+		start int
+	}
+	budget := 20000
+	onPath := map[*ssa.BasicBlock]int{}
+	var walk func(b *ssa.BasicBlock, start int, known map[ssa.Value]bool) bool
+	walk = func(b *ssa.BasicBlock, start int, known map[ssa.Value]bool) bool {
+		if budget <= 0 {
+			return true
+		}
+		budget--
+		if deadBlock(b) || onPath[b] >= 2 {
+			return false
+		}
+		onPath[b]++
+		defer func() { onPath[b]-- }()
+		// values computed in this block are new on this visit
+		var forgotten []ssa.Value
+		for v := range known {
+			if in, ok := v.(ssa.Instruction); ok && in.Block() == b && start == 0 {
+				forgotten = append(forgotten, v)
+			}
+		}
+		if len(forgotten) > 0 {
+			k2 := map[ssa.Value]bool{}
+			for v, o := range known {
+				k2[v] = o
+			}
+			for _, v := range forgotten {
+				delete(k2, v)
+			}
+			known = k2
+		}
+		for i := start; i < len(b.Instrs); i++ {
+			in := b.Instrs[i]
+			if target != nil && in == target {
+				return true
+			}
+			if stop[in] {
+				return false
+			}
+			if _, isRet := in.(*ssa.Return); isRet {
+				return target == nil
+			}
+			if iff, isIf := in.(*ssa.If); isIf {
+				v, pos := condKey(iff.Cond)
+				for idx, s := range b.Succs {
+					taken := (idx == 0) == pos // the value of v on this edge
+					if o, ok := known[v]; ok && o != taken {
+						continue
+					}
+					k2 := known
+					if _, ok := known[v]; !ok {
+						k2 = map[ssa.Value]bool{}
+						for kv, o := range known {
+							k2[kv] = o
+						}
+						k2[v] = taken
+					}
+					if walk(s, 0, k2) {
+						return true
+					}
+				}
+				return false
+			}
+		}
+		for _, s := range b.Succs {
+			if walk(s, 0, known) {
+				return true
+			}
+		}
+		return false
+	}
+	if from == nil {
+		return walk(fn.Blocks[0], 0, map[ssa.Value]bool{})
+	}
+	return walk(from.Block(), instrIndex(from)+1, map[ssa.Value]bool{})
+}
+
+// mustPrecede: on every branch-consistent path from the function entry to `later`, one of `earlier`
+// has been passed.
+func mustPrecede(fn *ssa.Function, earlier []ssa.Instruction, later ssa.Instruction) bool {
+	stop := map[ssa.Instruction]bool{}
+	for _, e := range earlier {
+		stop[e] = true
+	}
+	return len(earlier) > 0 && !feasiblePathAvoiding(fn, nil, later, stop)
+}
